@@ -116,6 +116,10 @@ var commentBodies = []string{
 	"комментарий", "注释です", "تعليق", "😀 emoji", "à", "voilà", "Å", "é", "ends in nbsp ", "ends in nel\u0085", "tab at end\t", "vt at end\v",
 	"ff at end\f", "ls at end ", "spaces at end   ", "\tleading tab", "x y", " ", "\u0085", "àà", "ÅÅÅ", "0xFF", "[3..5]", "T F", "1e5",
 	"ends with cr\r", "\v", "\f", "\f\v \t", "èàùÅ \u0085",
+	// round 11: a comment may end in any Unicode white-space code point (and blanks after it); all of it is comment
+	"ends in ideographic space\u3000", "\u3000", "ideographic then blanks\u3000 \t", "ends in em space\u2003", "ends in thin space\u2009 ",
+	"ends in ogham space\u1680", "ends in narrow nbsp\u202f", "ends in math space\u205f\t", "ends in line separator\u2028", "ends in paragraph separator\u2029",
+	"ends in zero width space\u200b", "ends in bom\ufeff", "ends in en quad\u2000", "ends in hair space\u200a\r",
 }
 var commentBodiesWithQuote = []string{"say \"hi\"", "\"", "unbalanced \" quote", "\"\"", "<A \"x\">"}
 
